@@ -34,7 +34,7 @@ def build_wheel(tmp):
 WORKER = r'''
 import sys, os, json, hashlib
 inst = sys.argv[1]
-sys.path[:] = [inst, os.path.join(inst, 'scripts')] + [p for p in sys.path if not os.path.realpath(p or '.').startswith('/repo') and p != '']
+sys.path[:] = [inst, os.path.join(inst, 'scripts')] + [p for p in sys.path if not os.path.realpath(p or '.').startswith(os.path.realpath(os.environ.get('VERIF_REPO', '/repo'))) and p != '']
 for m in list(sys.modules):
     if m.split('.')[0] in ('replay_unpack', 'replay_parser'): del sys.modules[m]
 import logging; logging.disable(logging.CRITICAL)
